@@ -110,7 +110,7 @@ with t_args (es : exprs) : exprs :=
              | EFuncLit ps res body =>
                  match body with
                  | SCons (SReturn rs) SNil =>
-                     if Nat.eqb (elen rs) (res_count res) then ELambda ps (t_es rs) else ELambda2 ps (t_ss body)
+                     if lam_ok res rs then ELambda ps (t_es rs) else ELambda2 ps (t_ss body)
                  | _ => ELambda2 ps (t_ss body)
                  end
              | _ => t_e e
@@ -164,7 +164,7 @@ Definition t_arg (im : list (name * str)) (e : expr) : expr :=
   | EFuncLit ps res body =>
       match body with
       | SCons (SReturn rs) SNil =>
-          if Nat.eqb (elen rs) (res_count res) then ELambda ps (t_es im rs) else ELambda2 ps (t_ss im body)
+          if lam_ok res rs then ELambda ps (t_es im rs) else ELambda2 ps (t_ss im body)
       | _ => ELambda2 ps (t_ss im body)
       end
   | _ => t_e im e
@@ -282,7 +282,7 @@ Proof.
                           | EFuncLit ps res body =>
                               match body with
                               | SCons (SReturn rs) SNil =>
-                                  if Nat.eqb (elen rs) (res_count res)
+                                  if lam_ok res rs
                                   then let '(r', u) := tr_exprs c rs in (ELambda ps r', u)
                                   else let '(b', u) := tr_block c body in (ELambda2 ps b', u)
                               | _ => let '(b', u) := tr_block c body in (ELambda2 ps b', u)
@@ -293,7 +293,7 @@ Proof.
                      | EFuncLit ps res body =>
                          match body with
                          | SCons (SReturn rs) SNil =>
-                             if Nat.eqb (elen rs) (res_count res) then ELambda ps (t_es (imps c) rs)
+                             if lam_ok res rs then ELambda ps (t_es (imps c) rs)
                              else ELambda2 ps (t_ss (imps c) body)
                          | _ => ELambda2 ps (t_ss (imps c) body)
                          end
@@ -305,7 +305,7 @@ Proof.
         { destruct (tr_block c body) as [b' u]. simpl in *. congruence. }
         destruct body as [|s0 rest]; [exact Hblock|].
         destruct s0; try exact Hblock. destruct rest; [|exact Hblock].
-        destruct (Nat.eqb (elen r) (res_count res)); [|exact Hblock].
+        destruct (lam_ok res r); [|exact Hblock].
         simpl in Hs; change (t_ss (imps c) (SCons (SReturn r) SNil)) with (SCons (SReturn (t_es (imps c) r)) SNil) in Hs.
         destruct (tr_exprs c r) as [r' u]. simpl in Hs |- *. inversion Hs. reflexivity. }
       destruct (match e with EFuncLit _ _ _ => _ | _ => _ end) as [e' u1].
@@ -461,7 +461,7 @@ Proof.
   destruct body as [|s0 rest]; [eexists; split; [reflexivity | exact Hclos]|].
   destruct s0; try (eexists; split; [reflexivity | exact Hclos]).
   destruct rest; [|eexists; split; [reflexivity | exact Hclos]].
-  destruct (Nat.eqb (elen r) (res_count res)); [|eexists; split; [reflexivity | exact Hclos]].
+  destruct (lam_ok res r); [|eexists; split; [reflexivity | exact Hclos]].
   eexists. split; [reflexivity|].
   exact Hclos.
 Qed.
